@@ -38,7 +38,9 @@ var c20V = []uint64{0, 1, 999, 1000, 1001, 9999, 10000, 10001, 1 << 32, 1<<63 - 
 
 const dustLimit = 1000 // the protocol's dust limit, fixed here on purpose
 
-func c20Apply(w *depWorld, s pState, reqs []c20Req) (pState, error) { return c20ApplyNet(w, s, reqs, "") }
+func c20Apply(w *depWorld, s pState, reqs []c20Req) (pState, error) {
+	return c20ApplyNet(w, s, reqs, "")
+}
 
 // c20ApplyNet applies the requests on a chain configured for the given bitcoin network
 // ("" = the default of the test genesis).
